@@ -296,19 +296,6 @@ func checkMain(args []string) int {
 	merged.Counters["scenarios"] = scenarios
 
 	exit := 0
-	if len(infraMsgs) > 0 {
-		for _, m := range infraMsgs {
-			fmt.Println("INFRASTRUCTURE ERROR:", m)
-		}
-		exit = 2
-	}
-	for _, req := range e.Required(tier) {
-		if merged.Counters[req] == 0 {
-			fmt.Printf("INFRASTRUCTURE ERROR: required counter %q is zero: the run did not reach what it claims to cover\n", req)
-			exit = 2
-		}
-	}
-
 	known := loadKnown()
 	reportedKnown := map[string]bool{}
 	seenClass := map[string]int{}
@@ -339,8 +326,24 @@ func checkMain(args []string) int {
 		fmt.Printf("VIOLATION property=%s replay=%s\n", v.Property, path)
 		fmt.Printf("  class=%s\n  %s\n", v.Class, strings.ReplaceAll(v.Detail, "\n", "\n  "))
 	}
-	if unknown > 0 && exit == 0 {
+	switch {
+	case unknown > 0:
+		// A replayable violation stands whatever else went wrong in the batch.
 		exit = 1
+		for _, m := range infraMsgs {
+			fmt.Println("note (infrastructure):", m)
+		}
+	default:
+		for _, m := range infraMsgs {
+			fmt.Println("INFRASTRUCTURE ERROR:", m)
+			exit = 2
+		}
+		for _, req := range e.Required(tier) {
+			if merged.Counters[req] == 0 {
+				fmt.Printf("INFRASTRUCTURE ERROR: required counter %q is zero: the run did not reach what it claims to cover\n", req)
+				exit = 2
+			}
+		}
 	}
 	wall := time.Since(t0).Seconds()
 	writeEvidence(e, tier, seed, merged, opcodes, unknown, wall, workers, exit)
